@@ -29,7 +29,9 @@ CHECKS["C14"] = dict(
     explanation="Resources.Match executed symbolically on arbitrary pattern/subject bytes against a textbook glob matcher expressed as one formula; "
                 "Actions.FindMatch and Principals.Contains on symbolic strings against the statement's matching rules; the deny-overrides fold "
                 "(VerifyBucketPolicy -> isAllowed -> findMatch) for every number of statements, effect and combination of leaf match results "
-                "(leaf matchers summarised by symbolic Booleans - compositional).",
+                "(leaf matchers summarised by symbolic Booleans - compositional). Put-time validation: BucketPolicyItem.Validate / BucketPolicy.Validate on "
+                "statements built from every combination of one or two resources (inside / outside the bucket, object / bucket patterns) and actions in both "
+                "map insertion orders against the validity rule of the statement.",
     harnesses=[
         dict(name="H14a-glob", pkgs=["./auth"], entry="auth.VfGlobMatch", native=True, reach=["matched", "not-matched"]),
         dict(name="H14b-fold", pkgs=["./auth"], entry="auth.VfPolicyFold", redirects="spec/redirects_policy.json", reach=["allowed", "denied"]),
@@ -37,10 +39,13 @@ CHECKS["C14"] = dict(
         dict(name="H14b-principal", pkgs=["./auth"], entry="auth.VfPrincipalMatch", native=True, reach=["checked"]),
         dict(name="H14a-witness", pkgs=["./auth"], entry="auth.VfGlobWitness", witness=True),
         dict(name="H14b-witness", pkgs=["./auth"], entry="auth.VfPolicyWitness", redirects="spec/redirects_policy.json", witness=True),
+        dict(name="H14c-statement", pkgs=["./auth"], entry="auth.VfPolicyValidate", native=True, reach=["validated"]),
+        dict(name="H14c-document", pkgs=["./auth"], entry="auth.VfPolicyDocument", native=True, reach=["validated"]),
     ],
     assumptions=["SMT solvers sound", "GoSE faithful to go/ssa semantics"],
     outside=["patterns/subjects longer than the stated bounds", "raw JSON lexing and the string-or-array shapes (encoding/json is a model)",
-             "put-time validation of documents (H14c: not built)"],
+             "put-time validation: statements with more than two resources / two actions, trailing-* action patterns, principals checked against an IAM service; "
+             "that the route leaves the old policy in place when validation fails is covered by the route order only (validation precedes the backend call)"],
 )
 
 _C12_KEYS = dict(key_trace=['"class='])
